@@ -226,6 +226,12 @@ def c13_cross(ctx, dim):
         for u in enum_units()[d2]:
             uu = getattr(p.Unit, u)
             q = _mk(p, dim, v, getattr(p.Unit, own[0]))
+            # another quantity - of the FOREIGN dimension, with the same base magnitude, and one of this dimension - has just
+            # been read legitimately in that unit / in its own unit: what other objects were asked must not matter
+            other = _mk(p, d2, v, uu)
+            other.get_in(uu), other >> uu, other.unit_value
+            mine = _mk(p, dim, v, getattr(p.Unit, own[-1]))
+            mine.unit_value, mine >> getattr(p.Unit, own[0])
             for nm, f in (('get_in', lambda: q.get_in(uu)), ('rshift', lambda: q >> uu), ('ctor', lambda: cls(v, uu)),
                           ('unit_value_after_lshift', lambda: (q << uu).unit_value),
                           ('str_after_lshift', lambda: str(q))):
